@@ -83,7 +83,9 @@ pub trait ExEncodable {
     type ExternalTraitSpecificationFor: Encodable;
     spec fn rlp(&self) -> Seq<u8>;
     fn encode(&self, out: &mut dyn BufMut)
-        ensures buf_view(final(out)) == buf_view(old(out)) + self.rlp();
+        ensures
+            // [C04.encode.def] [C09.size.def] (label for the verified impl: Encodable for Enr<K>)
+            buf_view(final(out)) == buf_view(old(out)) + self.rlp();
     fn length(&self) -> (r: usize)
         ensures r == self.rlp().len();
 }
@@ -127,8 +129,16 @@ pub trait ExDecodable: Sized {
     spec fn dec_len(s: Seq<u8>) -> nat;
     fn decode(buf: &mut &[u8]) -> (r: Result<Self, DecoderError>)
         ensures
+            // The labels name the clauses for the one impl of this trait that is VERIFIED (impl Decodable for Enr<K>); for the
+            // library impls (u16, u64, Bytes, ...) the same clauses are assumptions.
+            // [C02.decode.iff] an input that is exactly one item (or holds no complete item at all)
+            (parse_hdr(old(buf)@) is None || item_total(old(buf)@) == old(buf)@.len()) ==> (r is Ok <==> Self::dec_ok(old(buf)@)),
+            // [C13.decode.local] the same outcome whatever follows the first item
             r is Ok <==> Self::dec_ok(old(buf)@),
-            r matches Ok(v) ==> Self::dec_post(old(buf)@, v) && final(buf)@ == after(old(buf)@, Self::dec_len(old(buf)@)),
+            // [C04.decode.fields]
+            r matches Ok(v) ==> Self::dec_post(old(buf)@, v),
+            // [C13.decode.advance]
+            r matches Ok(v) ==> final(buf)@ == after(old(buf)@, Self::dec_len(old(buf)@)),
     ;
 }
 
